@@ -45,6 +45,7 @@ func watchdog(limit time.Duration) {
 }
 
 type replayFile struct {
+	BySeed   bool             `json:"by_seed,omitempty"` // replay the seed's own PRNG streams (no tapes): used for runs that crash the process
 	Property string           `json:"property"`
 	Class    string           `json:"class"`
 	Seed     uint64           `json:"seed"`
@@ -63,6 +64,8 @@ func runOne(t *testing.T, prop string, seed uint64, tier string, tapes map[strin
 	}
 	progress.Add(1)
 	currentRun.Store(fmt.Sprintf("%s seed=%d", prop, seed))
+	// the driver attributes a crash of the process to the last run that started
+	fmt.Fprintf(os.Stderr, "@@RUN prop=%s seed=%d replay=%v\n", prop, seed, tapes != nil)
 	wall := time.Now()
 	var ch *simrt.Choices
 	if tapes != nil {
@@ -72,30 +75,60 @@ func runOne(t *testing.T, prop string, seed uint64, tier string, tapes map[strin
 	}
 	dir := mustMkdirTemp("run-")
 	defer os.RemoveAll(dir)
+	defer func() { res.WallUs = time.Since(wall).Microseconds() }()
+	raceReports() // anything logged before this run is not its business
 	defer func() {
-		res.WallUs = time.Since(wall).Microseconds()
-		if r := recover(); r != nil {
-			msg := fmt.Sprint(r)
-			if strings.Contains(msg, "deadlock:") {
-				// goroutines of the bubble were still blocked when the run ended;
-				// the harness has already judged that (or not) through its own oracle.
-				if res.Extra == nil {
-					res.Extra = map[string]any{}
-				}
-				res.Extra["bubble_end"] = msg
-				return
+		for _, rep := range raceReports() {
+			cls, ok := raceClass(rep)
+			if !ok {
+				continue
 			}
-			buf := make([]byte, 16384)
-			n := runtime.Stack(buf, false)
-			res.Machinery = "panic in harness: " + msg + "\n" + string(buf[:n])
+			if res.OK {
+				res.OK = false
+				res.Class = cls
+				res.Msg = "the race detector reports, with only the program's own synchronisation visible to it:\n" + strings.TrimSpace(rep)
+				res.Tapes = ch.Log()
+			}
 		}
 	}()
+	// The bubble runs in a goroutine of its own: when the race detector has
+	// reported anything (including the harness's own unsynchronised
+	// bookkeeping), testing fails the bubble's T and synctest.Test calls
+	// FailNow, which must not end the worker loop.
+	bubbleDone := make(chan struct{})
+	go func() {
+		defer close(bubbleDone)
+		defer func() {
+			if r := recover(); r != nil {
+				msg := fmt.Sprint(r)
+				if strings.Contains(msg, "deadlock:") {
+					// goroutines of the bubble were still blocked when the run ended;
+					// the harness has already judged that (or not) through its own oracle.
+					if res.Extra == nil {
+						res.Extra = map[string]any{}
+					}
+					res.Extra["bubble_end"] = msg
+					return
+				}
+				buf := make([]byte, 16384)
+				n := runtime.Stack(buf, false)
+				res.Machinery = "panic in harness: " + msg + "\n" + string(buf[:n])
+			}
+		}()
+		runBubble(t, f, ch, &res, tier, dir, trace)
+	}()
+	<-bubbleDone
+	return
+}
+
+func runBubble(t *testing.T, f PropFunc, ch *simrt.Choices, resp *Result, tier, dir string, trace bool) {
 	synctest.Test(t, func(t *testing.T) {
+		res := resp
 		s := simrt.New(ch)
 		s.TraceOn = trace
 		s.Install()
 		defer s.Uninstall()
-		e := &Env{T: t, S: s, C: ch, R: &res, Tier: tier, Dir: dir, start: time.Now(), ev: &fnvLog{}, Knob: map[string]int{}}
+		e := &Env{T: t, S: s, C: ch, R: res, Tier: tier, Dir: dir, start: time.Now(), ev: &fnvLog{}, Knob: map[string]int{}}
 		func() {
 			defer func() {
 				if r := recover(); r != nil {
@@ -134,7 +167,6 @@ func runOne(t *testing.T, prop string, seed uint64, tier string, tapes map[strin
 		// let whatever is still runnable finish, so the bubble can end cleanly
 		s.Drain(100000)
 	})
-	return
 }
 
 // warmup executes one throw-away run so that process-wide one-time effects
@@ -143,7 +175,10 @@ func runOne(t *testing.T, prop string, seed uint64, tier string, tapes map[strin
 // would pass through yield points that later runs never see, and a seed
 // would not mean the same execution in every process.
 func warmup(t *testing.T, prop, tier string) {
-	if os.Getenv("VERIF_WARMUP") == "0" {
+	if os.Getenv("VERIF_WARMUP") == "0" || simrt.RaceBuild {
+		// (race builds: the detector reports each race once per process; a
+		// warm-up run would swallow the report of the run that matters. The
+		// only race-built harness, C11, does not go through mtail.New.)
 		return
 	}
 	old := os.Getenv("VERIF_AVOID")
@@ -206,8 +241,11 @@ func TestWorker(t *testing.T) {
 		if rf.Tier != "" {
 			tier = rf.Tier
 		}
-		if rf.Tapes == nil {
+		if rf.Tapes == nil && !rf.BySeed {
 			rf.Tapes = map[string][]int{}
+		}
+		if rf.BySeed {
+			rf.Tapes = nil
 		}
 		warmup(t, rf.Property, tier)
 		res := runOne(t, rf.Property, rf.Seed, tier, rf.Tapes, trace)
